@@ -151,6 +151,14 @@ MEDDLY::initializer_list* MEDDLY::defaultInitializerList(initializer_list* prev)
 
 void MEDDLY::initialize()
 {
+    //
+    // Check before building the default initializers:
+    // constructing them resets the (static) compute table
+    // settings that the running library is still using.
+    //
+    if (initializer_list::libraryIsRunning()) {
+        throw error(error::ALREADY_INITIALIZED, __FILE__, __LINE__);
+    }
     initializer_list::initializeLibrary( defaultInitializerList(0) );
 }
 
